@@ -363,7 +363,73 @@ def rule_castmatrix(run):
     c05.rule_back(run)
 
 
-RULES = [rule_rows, rule_hops, rule_tokens, rule_exhaustive, rule_casts, rule_flags, rule_siblings, rule_widths, rule_intarith, rule_ext, rule_castmatrix]
+def rule_tracer_tables(run):
+    """the tracer's own operator tables (shared extraction with C10.a): which dunder a Python operator is dispatched to,
+    forward and reflected; comparisons with a constant on the left use the MIRRORED operator"""
+    from . import c10
+    run.begin(
+        "C02.tracer",
+        "tracer dispatch tables: every binary operator maps to its own (forward, reflected) method pair and a reflected "
+        "comparison swaps the operator (a >= b  <=>  b <= a); cohdl.op.truncdiv / rem dispatch to their own protocol "
+        "methods, forward on the left operand and reflected on the right one",
+        floor=22,
+    )
+    orc = ot.oracle()["python_ast"]
+    prep = run.idx.mod(ot.PREP)
+    ai = prep.func("PrepareAst.apply_impl")
+    b = c10._branch(ai.node, "ast.BinOp")
+    if b is None:
+        raise AnalysisError("anchor vanished: ast.BinOp handler")
+    rows = c10._op_table(b.body)
+    for opn, exp in orc["binop"].items():
+        got = rows.get(opn)
+        if got is None:
+            continue  # an operator the tracer rejects computes nothing
+        run.ob(got == exp, "apply_impl[ast.BinOp]", file=prep.rel, line=b.lineno, detail=opn, expected=str(exp), found=str(got))
+    sc = prep.func("PrepareAst.apply_impl.<locals>.single_compare")
+    rows = c10._op_table(sc.node.body, var="operator", call="evaluate")
+    if len(rows) < 6:
+        raise AnalysisError("comparison table of single_compare not recognised")
+    for opn, exp in orc["compare"].items():
+        got = rows.get(opn)
+        run.ob(got == exp, "apply_impl[ast.Compare]", file=prep.rel, line=sc.node.lineno, detail=opn, expected=f"{exp} (reflected comparison swaps the operator)", found=str(got))
+    # cohdl.op: protocol dispatch
+    opm = run.idx.mod("cohdl/_core/_op.py")
+    for fn in ("truncdiv", "rem"):
+        f = opm.func(fn)
+        pa = [a.arg for a in f.node.args.posonlyargs + f.node.args.args]
+        if len(pa) != 2:
+            raise AnalysisError(f"cohdl.op.{fn}: two operands expected")
+        a_, b_ = pa
+        fwd, rev = f"_cohdl_{fn}_", f"_cohdl_r{fn}_"
+        n = 0
+        for c in calls_in(f.node):
+            if isinstance(c.func, ast.Attribute) and isinstance(c.func.value, ast.Name) and c.func.value.id in pa and c.func.attr.startswith("_cohdl_"):
+                recv = c.func.value.id
+                arg = dotted(c.args[0]) if c.args else None
+                exp_m, exp_arg = (fwd, b_) if recv == a_ else (rev, a_)
+                n += 1
+                run.ob(c.func.attr == exp_m and arg == exp_arg, f"cohdl.op.{fn}", file=opm.rel, line=c.lineno, detail=f"dispatch#{n}",
+                       expected=f"{recv}.{exp_m}({exp_arg})", found=src(c))
+        for c in calls_in(f.node):
+            if dotted(c.func) == "hasattr" and len(c.args) == 2 and isinstance(c.args[1], ast.Constant):
+                run.ob(c.args[1].value == fwd and dotted(c.args[0]) == a_, f"cohdl.op.{fn}", file=opm.rel, line=c.lineno, detail="probe", expected=f'hasattr({a_}, "{fwd}")', found=src(c))
+        if n < 3:
+            raise AnalysisError(f"cohdl.op.{fn}: protocol calls not recognised")
+    run.end()
+
+
+def rule_resize(run):
+    from ..rules import resizemodel
+    resizemodel.run_rule(run, "C09.resize")
+
+
+def rule_views(run):
+    from ..rules import views
+    views.run_rule(run, "F-VIEW")
+
+
+RULES = [rule_rows, rule_hops, rule_tokens, rule_exhaustive, rule_casts, rule_flags, rule_siblings, rule_widths, rule_intarith, rule_ext, rule_castmatrix, rule_tracer_tables, rule_resize, rule_views]
 
 LEVEL = "other"
 EXPLANATION = (
